@@ -9,6 +9,7 @@ package harness
 import (
 	"fmt"
 	"math/rand"
+	"strings"
 	"sync"
 	"time"
 
@@ -327,6 +328,85 @@ func runC13MergeCap(run *Run, seed int64, total int) (out []*c01Result) {
 	Settle(6 * time.Second)
 	if c := V.ML().VerifPushPullInFlight(); c != 0 {
 		fail("pushpull-counter", "push/pull in-flight counter is %d at rest", c)
+	}
+	return
+}
+
+// runC13DeafPeer: the node itself opens a state exchange with an address that completes the handshake and then
+// never reads a byte (a wedged process, a firewall black hole behind a proxy). The socket buffers are bounded, the
+// node's state is larger than they are: the write must give up at the stream timeout, the call must return, the
+// connection must be closed and no goroutine may stay behind in it.
+func runC13DeafPeer(run *Run, seed int64, mode string) (out []*c01Result) {
+	fail := func(key, f string, a ...any) {
+		out = append(out, &c01Result{"C13/" + key, fmt.Sprintf(f, a...)})
+	}
+	const tcpTimeout = 2 * time.Second
+	pp := time.Duration(0)
+	if mode == "periodic" {
+		pp = 3 * time.Second
+	}
+	rig, err := NewRig(RigOpts{Seed: seed, Spec: NodeSpec{Name: "V", IP: "10.9.9.9", Mutate: func(cf *memberlist.Config) {
+		cf.ProbeInterval = noProbe
+		cf.PushPullInterval = pp
+		cf.GossipInterval = 0
+		cf.TCPTimeout = tcpTimeout
+	}}})
+	if err != nil {
+		fail("harness/create", "%v", err)
+		return
+	}
+	defer rig.Close()
+	rig.C.Net.StreamWindow = 64 << 10
+	state := make([]byte, 1<<20)
+	rand.New(rand.NewSource(seed)).Read(state)
+	rig.V.Del.mu.Lock()
+	rig.V.Del.State = state
+	rig.V.Del.mu.Unlock()
+	h := rig.AddPeer("h", "10.9.4.4", 7946) // accepts connections (they queue up unread), answers nothing
+	m := rig.V.ML()
+	t0 := time.Now()
+	returned := make(chan string, 1)
+	switch mode {
+	case "join":
+		go func() {
+			n, err := m.Join([]string{h.EP.Addr})
+			returned <- fmt.Sprintf("Join = (%d, %v)", n, err)
+		}()
+	case "periodic":
+		rig.Introduce(h, 1) // one ordinary alive packet plants the member; the periodic exchange picks it
+		returned <- "n/a"
+	}
+	var what string
+	select {
+	case what = <-returned:
+	case <-time.After(10 * tcpTimeout):
+		fail("outbound-stream-hang/"+mode, "%s towards a peer that accepts the connection and never reads had not returned %v after it was called (TCPTimeout %v, state %d bytes, socket buffers %d bytes)", mode, time.Since(t0), tcpTimeout, len(state), rig.C.Net.StreamWindow)
+		rig.C.Net.CloseAll()
+		Settle(time.Second)
+		return
+	}
+	run.Cell("deaf-peer", mode)
+	run.Eval(1)
+	if mode == "join" && !strings.Contains(what, "(0, ") {
+		fail("deaf-peer/join-succeeded", "%s although the peer never answered", what)
+	}
+	// let (several) periodic exchanges happen, then look at what is left open
+	Settle(6 * tcpTimeout)
+	open, stuck := 0, 0
+	for _, c := range rig.C.Net.Conns() {
+		if c.DialAddr == rig.V.EP.Addr && !c.Dialer.IsClosed() && time.Since(c.OpenedAt) > 2*tcpTimeout {
+			open++
+		}
+	}
+	for _, g := range MemberlistGoroutines() {
+		if strings.Contains(g, "sendLocalState") || strings.Contains(g, "sendAndReceiveState") {
+			if strings.Contains(g, "minutes]") || open > 0 {
+				stuck++
+			}
+		}
+	}
+	if open > 0 {
+		fail("conn-leak/outbound/"+mode, "%d connection(s) the node opened towards the deaf peer are still open more than 2 x TCPTimeout after they were opened (%d goroutine(s) still inside the exchange)", open, stuck)
 	}
 	return
 }
